@@ -352,7 +352,8 @@ class Check(BaseCheck):
                 info = {"head": np.array([2, 0, 20], dtype=np.int32), "valid": "1  # volume info valid", "filename": "x.mgz", "volume": np.array([256, 256, 256]),
                         "voxelsize": np.array([1.0, 1.0, 1.0]), "xras": np.array([-1.0, 0, 0]), "yras": np.array([0, 0, -1.0]), "zras": np.array([0, 1.0, 0]),
                         "cras": np.array([0.5, -3.0, 2.0])}
-                for fsinfo in (None, info):
+                info0 = dict(info, valid="0  # volume info invalid", head=np.array([20], dtype=np.int32))
+                for fsinfo in (None, info, info0):
                     p = tmp.path("lh.surf")
                     with core.quiet():
                         m = TriaMesh(v * 40, t, fsinfo=fsinfo)
@@ -362,6 +363,14 @@ class Check(BaseCheck):
                     b = core.call(TriaMesh.read_fssurf, p)
                     if b[0] != "ok" or not np.array_equal(b[1].t, t) or not np.array_equal(np.asarray(b[1].v, np.float32), (v * 40).astype(np.float32)):
                         return core.Violation("fs", "FreeSurfer surface not read back identically", dict(kind="fs"))
+                    if fsinfo is not None:          # every field of the header dictionary comes back
+                        got = b[1].fsinfo or {}
+                        for key, val in fsinfo.items():
+                            if key not in got:
+                                return core.Violation("fs", "header field `%s` (header with valid = %r) is lost in a write / read round trip" % (key, fsinfo["valid"]), dict(kind="fs"))
+                            same = (str(got[key]).strip() == str(val).strip()) if isinstance(val, str) else np.allclose(np.asarray(got[key], float), np.asarray(val, float), rtol=1e-6, atol=0)
+                            if not same:
+                                return core.Violation("fs", "header field `%s` reads back as %r, written %r" % (key, got[key], val), dict(kind="fs"))
                     # truncated or wrong-kind files never yield a different mesh
                     data = open(p, "rb").read()
                     mesh_end = 3 + data.index(b"\n\n") - 3 + 2 + 8 + 12 * len(v) + 12 * len(t)
